@@ -12,6 +12,7 @@ Definition T_quiet : str := [45;45;113;117;105;101;116]%N. Definition T_q : str 
 Definition T_no_interaction : str := [45;45;110;111;45;105;110;116;101;114;97;99;116;105;111;110]%N.
 Definition T_n : str := [45;110]%N.
 Definition T_h : str := [45;104]%N. Definition T_help : str := [45;45;104;101;108;112]%N.
+Definition T_V : str := [45;86]%N. Definition T_version : str := [45;45;118;101;114;115;105;111;110]%N.
 Definition S_help : str := [104;101;108;112]%N.                                  (* the help command *)
 Definition S_version : str := [118;101;114;115;105;111;110]%N.                   (* the version option *)
 
@@ -31,6 +32,10 @@ Definition decorated (s : settings) (stream_ansi : bool) : bool :=
 
 (* resolve_help_command *)
 Definition wants_help (ots : list str) : bool := has_token T_h ots || has_token T_help ots.
+
+(* print_version (PRE_HANDLE): the parsed option, or - since fix e9d73cf - the switch among the option tokens (a lenient
+   parse stops at the first token it cannot handle, the switch may stand behind it) *)
+Definition wants_version (ots : list str) : bool := has_token T_V ots || has_token T_version ots.
 
 (* what one run does, as far as the switches are concerned *)
 Inductive action :=
@@ -83,7 +88,7 @@ Definition run_summary (debug : bool) (a : application) (toks : list str) : summ
            match parse (b_fmt hc) true toks with
            | Err k => AError k
            | Ok ha =>
-             if args_is_option_set (b_fmt hc) ha S_version then AVersion [S_help]
+             if args_is_option_set (b_fmt hc) ha S_version || wants_version ots then AVersion [S_help]
              else if args_is_argument_set (b_fmt hc) ha (AName [99;111;109;109;97;110;100]%N)
              then match help_target a toks with Ok p => AHelpCmd p | Err k => AHelpFail k end
              else AHelpApp
@@ -93,7 +98,7 @@ Definition run_summary (debug : bool) (a : application) (toks : list str) : summ
          match resolve a toks with
          | Err k => AError k
          | Ok (path, f, x) =>
-           if args_is_option_set f x S_version then AVersion path
+           if args_is_option_set f x S_version || wants_version ots then AVersion path
            else if match path with [p] => str_eqb p S_help | _ => false end then
              (* the built-in help command: HelpTextHandler *)
              if args_is_argument_set f x (AName [99;111;109;109;97;110;100]%N)
